@@ -1,6 +1,8 @@
 import VirtioVerif.Model.Proto
 import VirtioVerif.Model.Layout
 import VirtioVerif.Model.Queue
+import VirtioVerif.Model.Blk
+import VirtioVerif.Model.Net
 /-!
 Native line-protocol driver over all models: one request line in, one reply line out.
 `case …` lines reset per-case state and are echoed as `case`.
@@ -10,6 +12,8 @@ open VirtioVerif
 structure World where
   dummy : Unit := ()
   queue : Queue.Q := Queue.Q.init 1 false false false
+  blk : Option Blk.State := none
+  net : Option Net.W := none
 
 def World.fresh : World := {}
 
@@ -19,6 +23,8 @@ def step (w : World) (line : String) : World × String :=
   | "layout" :: op :: rest => (w, Layout.handle op (Proto.parseArgs rest))
   | "queue" :: op :: rest =>
     let (q, o) := Queue.handle w.queue op (Proto.parseArgs rest); ({ w with queue := q }, o)
+  | "blk" :: op :: rest => let (s, o) := Blk.handle w.blk op (Proto.parseArgs rest); ({ w with blk := s }, o)
+  | "net" :: op :: rest => let (s, o) := Net.handle w.net op (Proto.parseArgs rest); ({ w with net := s }, o)
   | _ => (w, "bad-op")
 
 partial def loop (h : IO.FS.Stream) (out : IO.FS.Stream) (w : World) : IO Unit := do
